@@ -32,7 +32,7 @@ COMPONENTS = {
     "seam": ["order of operations + arguments (PRNG)", "numba.prange -> SimPrange (JIT-off)", "datetime.now in Exodus encoder -> SimClock", "dask scheduler -> synchronous", "process-global module state -> fork per run"],
     "uncontrolled": ["OpenMP threads of the JIT-compiled latitude scan (thread count is seeded, interleaving is not)"],
 }
-BUDGET = {"quick": {"off_runs": 500, "on_runs": 80, "timeout": 400}, "thorough": {"budget_s": 900}}
+BUDGET = {"quick": {"off_runs": 500, "on_runs": 80, "timeout": 400, "hashseed_runs": 60}, "thorough": {"budget_s": 900, "hashseed_runs": 1}}
 
 QUICK_SOURCES = ["qh", "mpas", "band", "band2", "mix", "cube", "mixe"]
 THOROUGH_SOURCES = QUICK_SOURCES + ["ico", "cap", "mpasd", "exo"]
